@@ -591,7 +591,9 @@ Goals(pre, ev, a, r) ==
          G(~ok /\ Len(a.items) >= 2
               /\ UndelegateFrom(pre, [s |-> a.s, a |-> "nat", o |-> a.items[1].o, x |-> a.items[1].x, nonce |-> a.nonce, txh |-> a.txh]).err = "",
            "msgund_second_entry_fails")
-    [] ev = "Associate"  -> G(ok /\ \E x \in ASSETS : NIsPos(pre.del[<<a.s, x, a.o>>].sh), "assoc_with_position")
+    [] ev = "Associate"  ->
+         G(ok /\ \E x \in ASSETS : NIsPos(pre.del[<<a.s, x, a.o>>].sh), "assoc_with_position") \cup
+         G(~ok /\ pre.assoc[a.s] # "" /\ a.o \in OPERATORS /\ \E x \in ASSETS : NIsPos(pre.del[<<a.s, x, a.o>>].sh), "assoc_refused_with_position")
     [] ev = "Dissociate" -> G(ok /\ \E x \in ASSETS : NIsPos(pre.del[<<a.s, x, pre.assoc[a.s]>>].sh), "dissoc_with_position")
     [] ev = "ReleaseHold" -> G(ok, "hold_released")
     [] ev = "EndBlock" ->
@@ -643,7 +645,7 @@ AllGoals ==
    "del_with_codelegator", "del_over_withdrawable",
    "und_partial", "und_full_exit_others_remain", "und_last_share", "und_skewed_rate", "und_hold_placed", "und_native",
    "und_self", "und_second_pending_same_staker_asset", "und_over_position",
-   "assoc_with_position", "dissoc_with_position", "hold_released",
+   "assoc_with_position", "assoc_refused_with_position", "dissoc_with_position", "hold_released",
    "eb_release", "eb_release_two_in_one_block", "eb_release_partly_slashed", "eb_release_fully_slashed",
    "eb_release_native", "eb_requeue_held", "eb_release_after_requeue",
    "slash_partial", "slash_full", "slash_wipes_pool", "slash_hits_pending_record", "slash_record_to_zero",
